@@ -18,7 +18,9 @@ ABSENT = 7
 def mutators():
     ops = [['g_insert', i] for i in range(4)]
     ops += [['g_remove', k] for k in (0, 1, 2)]
-    ops += [['connect', a, b, {'s': 'e'}] for a, b in ((0, 1), (1, 0), (1, 2), (3, 1), (0, 0))]
+    # node 3 shares its key with node 0: it is used for insert only - edges between two distinct nodes with one
+    # key are outside the 'distinct keys' precondition of the edge-operation properties
+    ops += [['connect', a, b, {'s': 'e'}] for a, b in ((0, 1), (1, 0), (1, 2), (2, 1), (0, 0))]
     ops += [['disconnect', 0, 1], ['disconnect', 1, 0], ['isolate', 1]]
     return ops
 
@@ -239,8 +241,9 @@ def sig_c18(f):
 
 
 # ------------------------------------------------------------------ C11 scc
-def scc_scenarios(flavour, n, max_edges):
-    for seq in canon_sequences(n, max_edges):
+def scc_scenarios(flavour, n, max_edges, simple=False):
+    from nodeops import simple_sequences
+    for seq in (simple_sequences(n, max_edges, loops=True) if simple else canon_sequences(n, max_edges)):
         nodes = [[i, 100 + i] for i in range(n)]
         pre = [['connect', u, v, {'s': f'e{j}'}] for j, (u, v) in enumerate(seq)]
         steps = pre + [['g_new']] + [['g_insert', i] for i in range(n)] + [['dump', 'lite'], ['g_scc']]
@@ -304,13 +307,19 @@ def run(prop, tier, seed):
         for fl in DIRECTED:
             if tier == 'quick':
                 items += list(scc_scenarios(fl, 3, 4))
-                items += list(scc_scenarios(fl, 4, 3))
+                items += list(scc_scenarios(fl, 4, 4, simple=True))
             else:
                 items += list(scc_scenarios(fl, 3, 5))
                 items += list(scc_scenarios(fl, 4, 4))
+                from nodeops import simple_sequences
+                for seq in simple_sequences(5, 5):
+                    nodes = [[i, 100 + i] for i in range(5)]
+                    pre = [['connect', u, v, {'s': f'e{j}'}] for j, (u, v) in enumerate(seq)]
+                    if len(seq) == 5:
+                        items.append(((fl, 'scc'), {'flavour': fl, 'nodes': nodes, 'steps': pre + [['g_new']] + [['g_insert', i] for i in range(5)] + [['dump', 'lite'], ['g_scc']], 'meta': {'seq': seq, 'family': 'scc'}}))
         return scenario_check(
             prop, tier, seed, items, evaluate_c11, sig_c11,
-            bounds={'members': '3 (<=4 edges) and 4 (<=3 edges)' if tier == 'quick' else '3 (<=5 edges) and 4 (<=4 edges)', 'max_edges': 4 if tier == 'quick' else 5,
+            bounds={'members': '3 (<=4 edges) and 4 (<=4 edges, no parallel edges)' if tier == 'quick' else '3 (<=5 edges), 4 (<=4 edges), 5 (exactly 5 edges, simple digraphs)', 'max_edges': 4 if tier == 'quick' else 5,
                     'free_choices': 'the order in which the hash map yields its members at every next() (subsumes insertion order)',
                     'outside': 'larger graphs; neighbours that are not members'},
             assumptions=['AHashMap/AHashSet modelled as association lists with free iteration order', 'std models of engine A',
